@@ -37,6 +37,8 @@ def run_shard(sh):
     rng = random.Random((sh.seed * 1000003 + sh.idx) & 0xffffffff)
     if sh.idx % 8 == 0:
         many_backups(sh, rng)
+    if sh.tier != 'quick' and sh.idx == 3:
+        many_backups(sh, rng, big=True)
     maxk = 30 if sh.tier == 'quick' else 200
     while sh.time_left() > 0:
         cfg = GenCfg()
@@ -138,16 +140,18 @@ def run_shard(sh):
         sh.count('programs')
 
 
-def many_backups(sh, rng):
+def many_backups(sh, rng, big=False, variant=None, kinds=None):
     """more than 128 files moved aside in one build (the backup area is laid out in
     sub-directories of 128), then a failure: every one must be restored"""
     n = rng.choice([129, 140, 260])
+    if big:
+        n = 128 * 128 + rng.choice([1, 7, 130])     # second level of the backup layout
     funcs = {'F': {'kind': 'bf', 'idx': 1, 'body': [['write', 'new']]}}
     body = [['bf', 'o/f%03d' % i, 'F', {'catch': False, 'args': [i]}] for i in range(n)]
     program = {'funcs': funcs, 'roots': [body, body + [['raise', 'root']]]}
     with Scratch('k') as sc:
         w = World(sc)
-        variant = rng.choice(['foreign', 'stale-outputs'])
+        variant = variant or rng.choice(['foreign', 'stale-outputs'])
         if variant == 'stale-outputs':
             sr = w.build(program, program['roots'][0], {}, label=0)
             if sr.divs:
@@ -164,7 +168,7 @@ def many_backups(sh, rng):
         sh.count('many_backup_renames', nren)
         sh.nt(('many-backups', n, variant))
         for d in sr.divs:
-            if d['kind'] in ROLLBACK_KINDS | {'foreign_changed'}:
+            if d['kind'] in (kinds or (ROLLBACK_KINDS | {'foreign_changed'})):
                 sh.violation(signature(d) + '|many-backups', detail(d), case_of(w, program))
                 return
         sr2 = w.build(program, program['roots'][0], {}, label=0)
